@@ -87,6 +87,23 @@ def run(tier, seed, opens):
                      'transaction with fee %r created' % t3.fee, 'WalletError (funds do not cover outputs + requested fee)')
             except (WalletError, TransactionError, ValueError):
                 ok += 1
+            # scenario: the amount needs three UTXOs but at most two may be used: the request must fail (never a transaction whose inputs do not cover it)
+            cases += 1
+            try:
+                w4 = Wallet.create('c07m%d' % wn, network='bitcoinlib_test', db_uri=db, witness_type=wt)
+                k4 = w4.get_key()
+                for j in range(3):
+                    w4.utxo_add(k4.address, 100000, '%064x' % rng.getrandbits(256), j, confirmations=10)
+                dest4 = HDKey(network='bitcoinlib_test', witness_type=wt).address()
+                t4 = w4.transaction_create([(dest4, 250000)], max_utxos=2, fee=rng.choice([None, 'low', 1000]))
+                tin4, tout4 = sum(i.value for i in t4.inputs), sum(o.value for o in t4.outputs)
+                if tin4 < tout4 or t4.fee is None or t4.fee < 0 or len(t4.inputs) > 2:
+                    fail('max_utxos smaller than needed', {'wallet': wt, 'utxos': [100000] * 3, 'send': 250000, 'max_utxos': 2},
+                         'transaction with inputs %d, outputs %d, fee %r, %d inputs' % (tin4, tout4, t4.fee, len(t4.inputs)), 'WalletError')
+                else:
+                    ok += 1
+            except (WalletError, TransactionError, ValueError):
+                ok += 1
             own = set(w.addresslist())
             dests = [HDKey(network='bitcoinlib_test', witness_type=wt).address() for _ in range(3)]
             for _ in range(n_req):
@@ -96,11 +113,14 @@ def run(tier, seed, opens):
                 nchange = rng.choice([1, 1, 2, 3])
                 explicit = rng.random() < 0.2
                 kwargs = dict(fee=fee, number_of_change_outputs=nchange)
+                max_utxos = rng.choice([None, None, 1, 2, 3])
+                if max_utxos is not None:
+                    kwargs['max_utxos'] = max_utxos
                 if explicit:
                     pick = rng.sample(sorted(utxos), rng.randint(1, min(3, len(utxos))))
                     kwargs['input_arr'] = [(txid, n, None, utxos[(txid, n)][0]) for txid, n in pick]
                 inp = {'wallet': wt, 'utxos': {'%s:%d' % k: v for k, v in utxos.items()}, 'recipients': recips, 'fee': fee, 'change_outputs': nchange,
-                       'explicit_inputs': explicit}
+                       'explicit_inputs': explicit, 'max_utxos': max_utxos}
                 cases += 1
                 spendable = sum(v for (v, c) in utxos.values() if c >= 1)
                 need = sum(a for _, a in recips)
